@@ -13,6 +13,7 @@ requests (one per line)                         reply
   item INT            item(i)                   outcome
   obs                                           obs
   mq TOKS             MediaQuery(text)          ok TYPE TEXT ITEMS | bad | unsupported
+  mqset R TOKS CPS    MediaQuery(text).mediaType = …   outcome # TYPE TEXT ITEMS | bad | unsupported
   cmpq TOKS           derived query parser vs the engine on the captured grammar      same | unsupported | differ …
   cmpl F TOKS         derived list parser vs the engine on the captured grammars      same | unsupported | differ …
 TOKS: `_` (no token) or tokens `TYPE/valhex/texthex` joined by `,`;  MEDIUM: TOKS or `!` (the empty string)
@@ -136,6 +137,15 @@ def step (m : ML) (line : String) : ML × String :=
         | .bad => "bad"
         | .unsupported => "unsupported")
     | none => (m, "bad-op")
+  | ["mqset", r, t, c] =>
+    match decBool r, decToks t, decCps c with
+    | some r, some t, some c => (m, match parseQ {} t with
+        | .ok q =>
+          let (q', o) := q.setMediaType r c
+          showOutcome (fun _ => "None") o ++ " # " ++ showMQ q'
+        | .bad => "bad"
+        | .unsupported => "unsupported")
+    | _, _, _ => (m, "bad-op")
   | ["cmpq", t] =>
     match decToks t with
     | some t => (m, cmpOut (parseQ {} t) (engineQ CssVerif.Gen.C17Grammar.mediaQueryAlone t) showMQ)
